@@ -38,7 +38,9 @@ package core
 // event; a pruned node drops a block outside the window before processing it; the square that is
 // stored is the one whose DAH the constructed header carries; the header that is published is that
 // header, and only after the store accepted the square; a store failure is reported and nothing is
-// published.
+// published. The store is the only de-duplication gate: an announcement is dropped without a fetch only
+// when the store has the height (or could not be asked), and the listener keeps no memory of heights it
+// has seen - so a height whose ingest failed is retried whole by the next announcement of it.
 //@ pure func dahOf(eds *rsmt2d.ExtendedDataSquare) da.DataAvailabilityHeader
 
 //@ extern (github.com/celestiaorg/go-header.Broadcaster).Broadcast
@@ -51,15 +53,17 @@ package core
 //@   ensures err == nil ==> result0 != nil
 //@ extern (*github.com/celestiaorg/celestia-node/store.Store).HasByHeight
 //@   effect $Had := result0
+//@   effect $HasErr := err != nil
 
 //@ func (*Listener).handleNewBlockEvent
 //@   property C15
 //@   noframe
-//@   requires cl != nil && !$Had && !$BlockFetched && !$Processed && !$StoreOK && !$Published && !$PutQ4 && !$PutODS && !$PutErr
+//@   requires cl != nil && !$Had && !$HasErr && !$BlockFetched && !$Processed && !$StoreOK && !$Published && !$PutQ4 && !$PutODS && !$PutErr
 //@   callpre Fetcher).GetSignedBlockFrom: !$Had && $arg2 == ev
 //@   callpre Fetcher).IsSyncingFrom: $arg2 == ev
 //@   callpre Listener).handleNewSignedBlock: (cl.archival || availability.IsWithinWindow(b.Header.Time, cl.availabilityWindow)) && $arg2 == ev && $arg3 == b && $arg4 == syncing
 //@   ensures $Had ==> !$BlockFetched && !$Processed && result == nil
+//@   ensures !$BlockFetched ==> $Had || $HasErr
 //@   ensures $Processed ==> $BlockFetched
 
 //@ func (*Listener).handleNewSignedBlock
